@@ -111,6 +111,9 @@ func validDoc(r *rng, f string) []byte {
 		return genTTMLDoc(r)
 	case "ts":
 		tc := genTTCase(r, r.intn(3))
+		if r.chance(1, 3) {
+			addTails(r, &tc)
+		}
 		return buildTS(r, tc, ttTSOpts{pid: uint16(0x100 + r.intn(0xe00)), video: r.bool(), period: 5, secondTT: r.chance(1, 4)})
 	}
 	panic("format")
@@ -170,7 +173,7 @@ func weirdAttrs(r *rng) *astisub.StyleAttributes {
 		sa.SRTPosition = byte(r.intn(256))
 	}
 	if r.chance(1, 4) {
-		sa.WebVTTTags = []astisub.WebVTTTag{{Name: []string{"", "b", "c", "v", "<"}[r.intn(5)], Annotation: weirdTexts[r.intn(len(weirdTexts))], Classes: []string{"", "x.y"}}}
+		sa.WebVTTTags = []astisub.WebVTTTag{{Name: []string{"", "b", "c", "v", "<"}[r.intn(5)], Annotation: append([]string{"", "", ""}, weirdTexts...)[r.intn(3+r.intn(2)*len(weirdTexts))], Classes: [][]string{{"", "x.y"}, {""}, nil, {"loud", "red"}, {"loud"}}[r.intn(5)]}}
 	}
 	if r.chance(1, 4) {
 		sa.WebVTTStyles = []string{weirdTexts[r.intn(len(weirdTexts))]}
@@ -281,6 +284,27 @@ func weirdSubs(r *rng) astisub.Subtitles {
 				}
 				ln.Items = append(ln.Items, li)
 			}
+			if r.chance(1, 8) {
+				// a family of neighbouring runs: tag stacks over one name whose class lists are prefixes of one
+				// another, of every relative length (nil, empty and non-empty lists included)
+				fam := []string{"loud", "red", "big"}
+				name := []string{"c", "b", "", "v"}[r.intn(4)]
+				for k := 2 + r.intn(3); k > 0; k-- {
+					var tags []astisub.WebVTTTag
+					for d := r.intn(3); d > 0; d-- {
+						t := astisub.WebVTTTag{Name: name}
+						if n := r.intn(5); n < 4 {
+							t.Classes = append([]string{}, fam[:n]...)
+						}
+						tags = append(tags, t)
+					}
+					li := astisub.LineItem{Text: weirdTexts[r.intn(len(weirdTexts))]}
+					if !r.chance(1, 6) {
+						li.InlineStyle = &astisub.StyleAttributes{WebVTTTags: tags}
+					}
+					ln.Items = append(ln.Items, li)
+				}
+			}
 			it.Lines = append(it.Lines, ln)
 		}
 		s.Items = append(s.Items, it)
@@ -354,8 +378,21 @@ func init() {
 	streams["tot.write"] = stream{exec: func(a []string) string {
 		s := weirdSubs(newRng(uint64(atoi64(a[1])), "weird"))
 		return classify(10*time.Second, func() error {
+			// the writers are called directly: writeRaw turns a panic into an error, which would hide it here
 			var b bytes.Buffer
-			return writeRaw(a[0], &s, &b)
+			switch a[0] {
+			case "srt":
+				return s.WriteToSRT(&b)
+			case "vtt":
+				return s.WriteToWebVTT(&b)
+			case "ssa":
+				return s.WriteToSSA(&b)
+			case "stl":
+				return s.WriteToSTL(&b)
+			case "ttml":
+				return s.WriteToTTML(&b)
+			}
+			panic("format")
 		})
 	}, gen: func(c *ctx) {
 		r := newRng(c.seed, "tot.write")
